@@ -24,7 +24,7 @@ RULE = ('kinds: tflag (TFLAG variable, valid flags from start+i*step incl. day/y
         'seconds/weeks, calendars standard/gregorian/proleptic_gregorian/noleap/365_day/all_leap/366_day, '
         'offsets up to centuries, bounds none/approx/time_bounds), atv (add_time_variable with and without '
         'TFLAG, TSTEP up to 7 digits); CF time variables stored as float64, float32 (large values) and integers; 365/366-day calendars on whole days since 1 January across 29 February; reference years 1900-2100; non-trivial = at least two instants and a '
-        'non-midnight or non-Jan-1 component somewhere; distinct = distinct case payload')
+        'non-midnight or non-Jan-1 component somewhere; distinct = distinct case payload; time_bounds variables with gaps between the cells; updatetflag(overwrite=True) with and without startdate / tstep on files that already carry time flags')
 ASSUMPTIONS = ['python datetime arithmetic and strptime are trusted (the model works on integer seconds)',
                'timedelta(days=float) rounds to the microsecond: exact values are whole seconds, float error < 1e-8 s',
                'CF values are integers or eighths so that every float operation in the standard path is exact',
@@ -145,6 +145,13 @@ def _cf_case(rng):
         step = rng.choice([1, 1, 30, 365, 7])
         vals = [start + step * i for i in range(n)]
         bnd = 'none' if rng.random() < 0.8 else bnd
+    if tdt == 'f' and bnd == 'approx' and len(vals) >= 2:
+        # approximated bounds of a float32 time variable are computed in float32: only generated where the half-step edges
+        # are float32 numbers themselves (otherwise the approximation is off by the float32 spacing, by construction)
+        dtm = (vals[-1] - vals[0]) / (len(vals) - 1)
+        edges = [v - dtm / 2 for v in vals] + [vals[-1] + dtm / 2]
+        if any(Fraction(float(np.float32(float(e)))) != e for e in edges):
+            bnd = 'none'
     return dict(kind='cf', unit=unit, cal=cal, ref=ref, vals=[lib.show_rat(v) for v in vals], bnd=bnd, tdt=tdt)
 
 
